@@ -10,6 +10,9 @@ import replaylib as rl
 from c09 import value_eq
 
 IMPORTS = ('From SV Require Import Base.Sym Base.Tensor Gen.PhasePerm Model.SymInst Model.Sectors Model.Array Model.Arith Model.Fermi Model.Fused.\n')
+# the statements of Props/C06c.v (fuse free legs before / after contraction) use a re-numbering of axes
+# (slot_pos / index_of), a_fuse and a_unfuse on pruned fused legs: tied here on the same inputs
+IMPORTS_FC = IMPORTS + 'From SV Require Import Proofs.FuseGroups Proofs.FuseCommuteProofs.\n'
 SYMS = ['Z2', 'U1', 'Z2Z2', 'U1U1']
 MODES = {'auto': 'MAuto', 'fused': 'MFused', 'blockwise': 'MBlockwise'}
 
@@ -98,6 +101,7 @@ def run(ctx):
     rng = ctx.rng
     n_cases = 900 if ctx.thorough else 160
     exprs, meta, found = [], [], []
+    fc_exprs, fc_meta = [], []
     stats = {'prefused_only_free_leg': 0, 'prefused_one_of_two': 0, 'different_sectors': 0, 'fermionic': 0, 'odd': 0, 'vector_or_scalar_side': 0}
     for k in range(n_cases):
         sym = SYMS[k % len(SYMS)]
@@ -168,6 +172,7 @@ def run(ctx):
                 cand = rf['blockwise']
                 pos_c = [ax for ax in order if ax == g or (ax in la)].index(g)
                 un = cand.unfuse(pos_c)
+                un_raw = un
                 legs_un = [ax for ax in order if ax == g or (ax in la)]
                 legs_un = legs_un[:pos_c] + list(g) + legs_un[pos_c + 1:]
                 perm = [legs_un.index(ax) for ax in la] + list(range(len(la), un.ndim))
@@ -182,6 +187,25 @@ def run(ctx):
                 if after.ndim != cand.ndim:
                     found.append({'op': 'fuse free legs before vs after contraction (rank)', **desc, 'prefused_axes': g,
                                   'replay': rp('prefused', prefused_axes=g)})
+                if not ferm:
+                    # tie of the objects the theorems of Props/C06c.v speak about, on this very input:
+                    # the re-numbered contracted axes and the group's positions in the product, the model's
+                    # fuse of the operand, and unfusing the fused leg of either route (pruned tables)
+                    g_after = [la.index(x) for x in g]
+                    axa_n = [x % a.ndim for x in axa]
+                    fc_exprs.append('list_eqb Nat.eqb (map (slot_pos (slots %d%%nat [%s])) %s) %s && '
+                                    'list_eqb Nat.eqb (map (fun ax => index_of ax (rest_axes %d%%nat %s)) %s) %s' % (
+                                        a.ndim, gen.gnatlist(g), gen.gnatlist(axa_n), gen.gnatlist(axa_f),
+                                        a.ndim, gen.gnatlist(axa_n), gen.gnatlist(g), gen.gnatlist(g_after)))
+                    fc_meta.append(('slot_pos / index_of re-numbering', sym, k))
+                    fc_exprs.append('aarray_eqb %s (a_fuse %s %s [%s]) %s' % (A, A, gar(a), gen.gnatlist(g), gar(af)))
+                    fc_meta.append(('a_fuse of the free group', sym, k))
+                    fc_exprs.append('match a_unfuse %s %s %d%%nat with Some u => aarray_eqb %s u %s | None => false end' % (
+                        A, gar(cand), pos_c, A, gar(un_raw)))
+                    fc_meta.append(('a_unfuse of the pre-fused result', sym, k))
+                    fc_exprs.append('match a_unfuse %s (a_fuse %s %s [%s]) %d%%nat with Some u => aarray_eqb %s u %s | None => false end' % (
+                        A, A, gar(c0), gen.gnatlist(g_after), pos_c, A, gar(after.unfuse(pos_c))))
+                    fc_meta.append(('a_unfuse of the post-fused result', sym, k))
                 for m in ('blockwise', 'fused'):
                     exprs.append('match %s %s %s %s %s %s with Some c => %s %s c %s | None => false end' % (
                         tdm, A, gar(af), gar(b), gaxes_spec(axa_f, axb), MODES[m], eqb, A, gar(rf[m])))
@@ -256,6 +280,12 @@ def run(ctx):
     elif bad_idx:
         tie_broken += ['Model.%s disagrees with the implementation (symmetry %s, case %d)' % meta[i] for i in bad_idx[:10]]
         ctx.extra['disagreeing_cases'] = [exprs[i][:3000] for i in bad_idx[:2]]
+    bad_fc = common.run_cases(ctx, 'fusecommute', IMPORTS_FC, '', fc_exprs, shard=40)
+    if bad_fc is None:
+        tie_broken.append('cases.v (re-numbering / fuse / unfuse used by the fuse-before-or-after theorems) did not evaluate')
+    elif bad_fc:
+        tie_broken += ['Model %s disagrees with the implementation (symmetry %s, case %d)' % fc_meta[i] for i in bad_fc[:10]]
+        ctx.extra['disagreeing_fuse_commute_cases'] = [fc_exprs[i][:3000] for i in bad_fc[:2]]
     seen = set()
     for f in found:
         if f['op'] in seen or len(seen) >= 5:
@@ -267,7 +297,7 @@ def run(ctx):
         ctx.violation('proof obligation or tie of C06 no longer checks',
                       {'broken': ctx.broken, 'replay': rl.record('proof_phase')}, found_input=False)
     ctx.extra['case_classes'] = stats
-    ctx.extra['tie'] = {'model_cases': len(exprs)}
+    ctx.extra['tie'] = {'model_cases': len(exprs), 'fuse_commute_cases': len(fc_exprs)}
     ctx.coverage['rule'] = ('random contractible pairs (rank 2-4, four symmetries, abelian and fermionic with pending signs and odd parity, sparse '
                             'operands whose stored sectors differ) x all strategies; a free leg fused beforehand; fusing the contracted legs after '
                             'align_axes with both fuse strategies; non-trivial = pre-fused leg or pre-fused contracted pair; distinct by structure')
